@@ -422,6 +422,9 @@ func runC15(c *Ctx) {
 			if o.Rule == "E4" {
 				rule = "D6"
 			}
+			if strings.Contains(o.Key, "#overrun-guard") {
+				continue // a spurious overrun fault is C07's business (no error in normal mode), not a divider fault
+			}
 			c.R.Check(o.OK, rule, o.Key, o.Site, o.Detail, o.Detail)
 		}
 		checkD5bad(c, pr)
